@@ -7,5 +7,6 @@ CONSTANTS
   MaxLen = 3
   Waits <- W012
   Groups <- G2
+  SampledGroups = {}
 INVARIANTS TypeOK BarrierOrder CountersExact Rules EndAfterMemory CompletionOnce BarrierBuffered NoHang
 CHECK_DEADLOCK FALSE
